@@ -574,6 +574,10 @@ def series(rng, base, nframes, field="random", amp_frac=0.3, snap=8, renumber=Tr
         times = [0.0]
         for t in range(1, nframes):
             times.append(times[-1] + float(2.0 ** int(rng.integers(-2, 3))))
+        if nframes >= 2 and rng.random() < 0.5:
+            # time stamps relative to an event: a frame other than the first carries exactly 0.0 (dyadic steps: the shift is exact)
+            anchor = int(rng.integers(1, nframes))
+            times = [t_ - times[anchor] for t_ in times]
     return specs, times, truth
 
 
